@@ -157,6 +157,9 @@ func main() {
 		os.WriteFile(*jsonOut, b, 0o644)
 	}
 	if bad > 0 {
+		if *keep == "" {
+			os.RemoveAll(tmp) // os.Exit skips the deferred removal
+		}
 		os.Exit(1)
 	}
 }
